@@ -1,3 +1,136 @@
-"""native replay of cbmc counterexamples on the real code (filled in per unit kind)"""
+"""Native replay of CBMC counterexamples on the real code of /repo (current working tree).
+
+kinds
+  janet : fill a Janet script template from the trace, run it on a sanitizer build of the real interpreter
+          (built from the working tree by bin/build_janet.sh). Confirmed iff the process crashes, a sanitizer
+          fires, it times out (when spec.hang_is_failure) or the script prints REPLAY-FAIL.
+  c     : generate replay_inputs.h (#define per variable, byte arrays as initialisers) from the trace, compile
+          /verif/replay/<driver> with gcc -fsanitize=address,undefined against the real sources, run it.
+          Confirmed iff it exits non-zero.
+"""
+import os, re, subprocess, struct, json
+
+
+def _last(trace, rx, before_failure=True):
+    val = None
+    r = re.compile(rx)
+    for st in trace:
+        if 'failure' in st and before_failure:
+            break
+        if 'lhs' in st and r.fullmatch(st['lhs']):
+            val = st
+    return val
+
+
+def _fmt(st, fmt):
+    if st is None:
+        return None
+    if fmt == 'bits' and st.get('binary'):
+        return str(int(st['binary'], 2))
+    if fmt == 'sbits' and st.get('binary'):
+        b = st['binary']
+        v = int(b, 2)
+        if b[0] == '1':
+            v -= 1 << len(b)
+        return str(v)
+    if fmt == 'double' and st.get('binary') and len(st['binary']) == 64:
+        d = struct.unpack('>d', int(st['binary'], 2).to_bytes(8, 'big'))[0]
+        return repr(d)
+    v = st.get('value')
+    if v is None:
+        return None
+    v = str(v)
+    m = re.match(r'^(-?\d+)[uUlL]*$', v)
+    return m.group(1) if m else v
+
+
+def extract(spec, trace):
+    vals = {}
+    for name, vs in (spec.get('vars') or {}).items():
+        st = _last(trace, vs['lhs'])
+        v = _fmt(st, vs.get('fmt', 'int'))
+        if v is None:
+            v = str(vs.get('default', 0))
+        vals[name] = v
+    for name, bs in (spec.get('bytes') or {}).items():
+        # collect assignments lhs like  <obj>[<idx>]  for the object named by regex
+        arr = {}
+        r = re.compile(bs['lhs'] + r'\[(\d+)[lLuU]*\]')
+        for st in trace:
+            if 'failure' in st:
+                break
+            if 'lhs' in st:
+                m = r.fullmatch(st['lhs'])
+                if m:
+                    try:
+                        arr[int(m.group(1))] = int(_fmt(st, 'int')) & 0xFF
+                    except Exception:
+                        pass
+        n = max(arr) + 1 if arr else 0
+        vals[name] = [arr.get(i, 0) for i in range(min(n, 4096))]
+    return vals
+
+
+_built = {}
+
+
+def build_janet(scratch, VERIF):
+    out = os.path.join(scratch, 'janet-replay')
+    if out in _built:
+        return _built[out]
+    p = subprocess.run([os.path.join(VERIF, 'bin', 'build_janet.sh'), out, 'san'], capture_output=True, text=True, timeout=900)
+    exe = os.path.join(out, 'janet')
+    _built[out] = exe if p.returncode == 0 and os.path.exists(exe) else None
+    return _built[out]
+
+
 def replay(spec, u, unit_res, trace, scratch, REPO, VERIF):
-    return False, 'replay kind %s not implemented' % spec.get('kind')
+    vals = extract(spec, trace or [])
+    kind = spec.get('kind')
+    if kind == 'janet':
+        exe = build_janet(scratch, VERIF)
+        if not exe:
+            return False, 'could not build janet from the working tree for replay'
+        script = spec['script']
+        for k, v in vals.items():
+            script = script.replace('{' + k + '}', str(v))
+        sp = os.path.join(scratch, 'replay_%s.janet' % re.sub(r'\W', '_', u['id']))
+        open(sp, 'w').write(script)
+        env = dict(os.environ, ASAN_OPTIONS='detect_leaks=0:abort_on_error=0', UBSAN_OPTIONS='print_stacktrace=1')
+        try:
+            p = subprocess.run([exe, sp], capture_output=True, text=True, timeout=spec.get('timeout', 60), env=env, cwd=scratch)
+            rc, out, err = p.returncode, p.stdout, p.stderr
+            hung = False
+        except subprocess.TimeoutExpired as e:
+            rc, out, err, hung = -1, str(e.stdout or ''), str(e.stderr or ''), True
+        crashed = rc < 0 or rc >= 128 or 'AddressSanitizer' in err or 'runtime error:' in err or 'SUMMARY: UndefinedBehaviorSanitizer' in err
+        if hung:
+            crashed = bool(spec.get('hang_is_failure'))
+        bad = crashed or 'REPLAY-FAIL' in out
+        txt = 'inputs from counterexample: %s\nscript:\n%s\nexit=%s hung=%s\nstdout: %s\nstderr: %s' % (
+            json.dumps(vals)[:600], script[:1500], rc, hung, out[-600:], err[-1500:])
+        return bad, txt
+    if kind == 'c':
+        d = os.path.join(scratch, 'replay_c_%s' % re.sub(r'\W', '_', u['id']))
+        os.makedirs(d, exist_ok=True)
+        with open(os.path.join(d, 'replay_inputs.h'), 'w') as f:
+            for k, v in vals.items():
+                if isinstance(v, list):
+                    f.write('#define %s_LEN %d\nstatic const unsigned char %s[%d] = {%s};\n' % (k, len(v), k, max(1, len(v)), ','.join(map(str, v)) or '0'))
+                else:
+                    f.write('#define %s %s\n' % (k, v))
+        conf = os.path.join(REPO, '_build') if os.path.exists(os.path.join(REPO, '_build', 'janetconf.h')) else os.path.join(REPO, 'src', 'conf')
+        exe = os.path.join(d, 'replay')
+        cmd = ['gcc', '-std=gnu99', '-g', '-O0', '-fsanitize=address,undefined', '-fno-sanitize-recover=undefined', '-I' + d, '-I' + os.path.join(REPO, 'src', 'include'),
+               '-I' + conf, '-iquote', os.path.join(REPO, 'src', 'core'), '-D_FILE_OFFSET_BITS=64', '-DREPO_CORE="%s"' % os.path.join(REPO, 'src', 'core'),
+               os.path.join(VERIF, 'replay', spec['driver'])] + [os.path.join(REPO, 'src', 'core', x) for x in spec.get('link', [])] + ['-o', exe, '-lm', '-ldl', '-lpthread']
+        p = subprocess.run(cmd, capture_output=True, text=True, timeout=600)
+        if p.returncode != 0:
+            return False, 'replay driver did not compile: ' + p.stderr[-800:]
+        try:
+            p = subprocess.run([exe], capture_output=True, text=True, timeout=60, env=dict(os.environ, ASAN_OPTIONS='detect_leaks=0'))
+        except subprocess.TimeoutExpired:
+            return False, 'replay driver timed out'
+        txt = 'inputs from counterexample: %s\nexit=%d\nstdout: %s\nstderr: %s' % (json.dumps(vals)[:800], p.returncode, p.stdout[-800:], p.stderr[-1500:])
+        return p.returncode != 0, txt
+    return False, 'replay kind %s not implemented' % kind
